@@ -151,6 +151,13 @@ func padTo(b []byte, n int) []byte {
 // "caller's arguments are left unmodified" clause.
 func nmfCall(k nmfCase) (f *of.MatchField, err error, argBefore, argAfter string) {
 	v := k.input
+	// a byte-slice argument is the caller's buffer: once the builder has returned, the caller fills it with the
+	// next address (one scratch buffer per loop); the field built from it is judged afterwards
+	reuse := func(b []byte) {
+		for i := range b {
+			b[i] = 0xEE ^ byte(i)
+		}
+	}
 	// the window arguments are spread from a slice that has spare capacity behind them, as a caller
 	// holding (offset, width, mode) triples and passing the first one or two does: nothing of that
 	// slice, the spare part included, is the builder's to write
@@ -213,6 +220,7 @@ func nmfCall(k nmfCase) (f *of.MatchField, err error, argBefore, argAfter string
 		argBefore = fmt.Sprintf("%x", arg)
 		f, err = of.NewMatchField(k.name, arg, w...)
 		argAfter = fmt.Sprintf("%x", arg)
+		reuse(arg)
 	case "net.IP":
 		n := 4
 		if v.BitLen() > 32 || k.width == 16 {
@@ -222,11 +230,13 @@ func nmfCall(k nmfCase) (f *of.MatchField, err error, argBefore, argAfter string
 		argBefore = fmt.Sprintf("%x", []byte(arg))
 		f, err = of.NewMatchField(k.name, arg, w...)
 		argAfter = fmt.Sprintf("%x", []byte(arg))
+		reuse(arg)
 	case "net.HardwareAddr":
 		arg := net.HardwareAddr(padTo(v.Bytes(), 6))
 		argBefore = fmt.Sprintf("%x", []byte(arg))
 		f, err = of.NewMatchField(k.name, arg, w...)
 		argAfter = fmt.Sprintf("%x", []byte(arg))
+		reuse(arg)
 	default:
 		panic("bad vtype " + k.vtype)
 	}
